@@ -528,7 +528,7 @@ def main():
     ck = Check("C16")
     quick = ck.tier == "quick"
     depth = 5 if quick else 6
-    ck.rule = RULE % (depth, 4 if quick else 5,
+    ck.rule = RULE % (depth, 4 if quick or vplib.NPROC < 8 else 5,
                       "" if quick else "; a seeded sample of depth-7 sessions, failure-free and with sampled failure points",
                       3 if quick else 5)
     ck.trusted += [
@@ -593,7 +593,9 @@ def main():
     # several 10^5 cases and must stay small in memory.
     kinds = {}
     JOBS = min(vplib.NPROC, 16)
-    all_depth = 4 if quick else 5      # sessions up to this depth: every fault class at every failure point
+    # sessions up to this depth: every fault class at every failure point (thorough with fewer than 8 workers
+    # stays at 4 to keep the tier under 20 minutes: 19.5 min were measured with depth 5 and VERIF_JOBS=4)
+    all_depth = 4 if quick or vplib.NPROC < 8 else 5
     rng7 = Rng(ck.seed + 7)
 
     def split_family(flat):
